@@ -26,6 +26,8 @@ Decided (structural necessary conditions on the kernels of tensor / sptensor / k
   MOVE    the dense ttv kernel moves the contracted modes to the end of the DATA by the same permutation by which it reorders its
           SHAPE bookkeeping; the data transposition may be skipped only under a test whose failure means there is at most one
           mode (a permutation of <= 1 modes is the identity)
+  PAIRED  the two mode lists of ttt are paired position by position (selfdims[k] is contracted with otherdims[k]); neither is
+          replaced by the result of tt_dimscheck / sort / unique, which would sort them independently
   SC      dense look-ups by subscript arrays are normalised before use (single stored entry)
 Not decided: any kernel's numbers; both sides of the 50 % densification switch; empty / scalar results.
 """
@@ -219,6 +221,17 @@ def _value_names(e: ast.AST):
         return
     if isinstance(e, ast.Name) and isinstance(e.ctx, ast.Load):
         yield e.id
+    if isinstance(e, ast.Call):
+        nm = dotted(e.func) or ""
+        base = nm.split(".")[-1] if nm else (e.func.attr if isinstance(e.func, ast.Attribute) else "")
+        if base in ("transpose", "reshape", "permute", "moveaxis", "swapaxes", "squeeze", "expand_dims", "take", "tile", "repeat", "to_memory_order",
+                    "zeros", "ones", "empty", "full", "arange"):
+            # re-arrangements and allocations: shapes, axes and permutations do not flow into the VALUES
+            if isinstance(e.func, ast.Attribute) and not nm.startswith(("np.", "numpy.", "ttb.")):
+                yield from _value_names(e.func.value)
+            elif e.args and base not in ("zeros", "ones", "empty", "arange"):
+                yield from _value_names(e.args[0])
+            return
     for c in ast.iter_child_nodes(e):
         yield from _value_names(c)
 
@@ -237,6 +250,8 @@ def _roots(fn: ast.FunctionDef) -> Dict[str, Set[str]]:
                 # item stores feed the container too
                 if isinstance(t, ast.Subscript) and isinstance(t.value, ast.Name):
                     defs.append((t.value.id, n.value))
+        elif isinstance(n, ast.AnnAssign) and n.value is not None and isinstance(n.target, ast.Name):
+            defs.append((n.target.id, n.value))
         elif isinstance(n, ast.AugAssign):
             t = n.target
             if isinstance(t, ast.Name):
@@ -282,9 +297,54 @@ def dtype_rule(prog: Program, res: Result, tree: Optional[ast.AST] = None) -> in
                 if not (isinstance(dt, ast.Attribute) and dt.attr == "dtype" and owners):
                     continue
                 allocs.append((a, a.targets[0].id, dt))
-        if not allocs:
+        # explicit casts of a computed value to ONE operand's element type: np.array(expr, dtype=X.dtype), expr.astype(X.dtype)
+        casts = []
+        for c in ast.walk(fn):
+            if not isinstance(c, ast.Call):
+                continue
+            nm = dotted(c.func) or ""
+            base = nm.split(".")[-1] if nm else (c.func.attr if isinstance(c.func, ast.Attribute) else "")
+            dt = src = None
+            if base in ("array", "asarray", "asfortranarray", "ascontiguousarray") and nm.startswith(("np.", "numpy.")) and c.args:
+                dt, src = kwarg(c, "dtype"), c.args[0]
+            elif base == "astype" and isinstance(c.func, ast.Attribute):
+                dt = kwarg(c, "dtype") or (c.args[0] if c.args else None)
+                src = c.func.value
+            if dt is None or src is None or not (isinstance(dt, ast.Attribute) and dt.attr == "dtype"):
+                continue
+            # logical / comparison results are 0/1: casting them to an operand's type loses nothing
+            inner = src
+            while isinstance(inner, ast.Call) and isinstance(inner.func, ast.Attribute) and inner.func.attr in ("reshape", "squeeze", "copy", "transpose"):
+                inner = inner.func.value
+            if isinstance(inner, (ast.Compare, ast.BoolOp)) or (isinstance(inner, ast.Call) and (dotted(inner.func) or "").split(".")[-1].startswith(
+                    ("logical_", "isin", "isnan", "isinf", "equal", "not_equal", "greater", "less"))):
+                continue
+            if fi is not None and fi.name not in ("ttv", "ttm", "mttkrp", "mttkrps", "ttt", "ttsv", "innerprod", "norm", "contract", "scale", "full",
+                                                  "double", "to_tensor", "reconstruct", "mttv_left", "mttv_mid", "__mul__", "to_tenmat"):
+                continue          # explicit casts are judged in the multilinear kernels only (logical / comparison operators cast 0/1 values)
+            casts.append((c, src, dt))
+        if not allocs and not casts:
             continue
         prov = _roots(fn)
+        for c, src, dt in casts:
+            owner = set()
+            for x in ast.walk(dt):
+                if isinstance(x, ast.Name):
+                    owner |= prov.get(x.id, {x.id})
+            d: Set[str] = set()
+            for x in _value_names(src):
+                d |= prov.get(x, set())
+            if not d:
+                continue
+            n_sites += 1
+            desc = f"a value cast to `{ast.unparse(dt)}` is computed from that operand only"
+            where = prog.loc(fi, c) if fi is not None else "fixture"
+            if d - owner:
+                res.bad("DTYPE", short, desc, where,
+                        f"`{ast.unparse(c)[:80]}` casts a value that also depends on {sorted(d - owner)} to {ast.unparse(dt)}: a float result of an "
+                        "integer tensor times a float matrix is truncated without a warning")
+            else:
+                res.ok("DTYPE", short, desc, where)
         for a, name, dt in allocs:
             owner = set()
             for x in ast.walk(dt):
@@ -436,11 +496,33 @@ def move_sync(prog: Program, res: Result) -> None:
         res.ok("MOVE", fi.short, desc, prog.loc(fi, tr[0]), f"permutation {pt}; guards {[ast.unparse(t) for t in tests]}")
 
 
+def paired_dims(prog: Program, res: Result) -> None:
+    for short, pname in (("tensor.tensor.ttt", "selfdims"), ("tensor.tensor.ttt", "otherdims")):
+        fi = prog.func(short)
+        desc = f"the position-paired mode list `{pname}` is used in the order given"
+        bad = None
+        for n in ast.walk(fi.node):
+            if isinstance(n, ast.Assign):
+                tg = n.targets[0]
+                names = [x.id for x in (tg.elts if isinstance(tg, ast.Tuple) else [tg]) if isinstance(x, ast.Name)]
+                if pname in names and isinstance(n.value, ast.Call):
+                    fn = (dotted(n.value.func) or "").split(".")[-1]
+                    uses = any(isinstance(x, ast.Name) and x.id == pname for x in ast.walk(n.value))
+                    if uses and fn in ("tt_dimscheck", "sort", "sorted", "unique", "setdiff1d", "union1d", "intersect1d"):
+                        bad = (n, fn)
+        if bad:
+            res.bad("PAIRED", short, desc, prog.loc(fi, bad[0]),
+                    f"`{pname}` is replaced by the result of {bad[1]}(...), which sorts it on its own: the k-th entries of the two lists no longer "
+                    "belong together whenever the lists sort differently")
+        else:
+            res.ok("PAIRED", short, desc, prog.loc(fi), nontrivial=False)
+
+
 def check(prog: Program, res: Result, tier: str) -> None:
     res.explanation = __doc__.split("\n\n", 1)[1]
     res.assumptions = ["tt_dimscheck contract (C17): dims sorted, vidx[j] = position of the multiplicand that belongs to dims[j]",
                        "khatrirao(reverse=True) over an ascending factor list matches the F-order unfolding (C17 KRAX)"]
-    res.floors = {"VIDX": 6, "KR": 9, "EO-1": 21, "WEIGHTS": 6, "FOLD": 4, "REP": 18, "DTYPE": 1, "WDEG": 30, "AGG": 2, "MOVE": 1}
+    res.floors = {"VIDX": 6, "KR": 9, "EO-1": 21, "WEIGHTS": 6, "FOLD": 4, "REP": 18, "DTYPE": 1, "WDEG": 30, "AGG": 2, "MOVE": 1, "PAIRED": 2}
     for f in DENSE_KERNELS + SPARSE_KERNELS:
         prog.func(f)
     vidx(prog, res)
@@ -451,6 +533,7 @@ def check(prog: Program, res: Result, tier: str) -> None:
     wdeg(prog, res)
     agg_contract(prog, res)
     move_sync(prog, res)
+    paired_dims(prog, res)
     dtype_rule(prog, res)
     from ..report import Result as _R
     probe = _R("C02")
